@@ -17,6 +17,10 @@ Monitor (runtime monitoring; CPython is the reference executor):
                            fixed function of P' is compared with the generator's reference fix ("f" prefix / "await").
         still-reported     D(P') still has as many diagnostics with the applied diagnostic's (code, description) as D(P)
       and the step is repeated on P' until nothing is applied any more.
+      Operands of % formatting / f-string fields are additionally enumerated by inferred-type class (conversion x type class x
+      placement): 12 independent one-function units are checked in one run, the hook's list of all Replacements tells which
+      of them carry a proposal, and those are iterated as above; every function is called with an inhabitant of every member
+      of its operand's type (a fix that is right for one member of a union and wrong for another shows only then).
   (2) add-ignores.  P_0 = program of vp.illtyped (plus single-snippet programs, tab / CRLF variants);
       P_{i+1} = new_code of run(P_i, add_ignores=True, apply_changes=True), up to ITERATION_LIMIT:
         unparsable / no-fixpoint / ast-changed (final dump != original) / ignore-too-wide / ignore-redundant
@@ -68,6 +72,8 @@ def _recording_apply(cls, changes, input_lines):
             "add": None if ch.lines_to_add is None else list(ch.lines_to_add),
             "error": None if ch.error_str is None else harness.normalise_text(str(ch.error_str)),
             "nchanges": len(changes),
+            # every Replacement of the run: (line numbers, carries new lines?) -- read by the batch classifier only
+            "all": [(sorted(c.linenos_to_delete), c.lines_to_add is not None) for c in changes],
         })
     return _orig_apply(cls, changes, input_lines)
 
@@ -342,6 +348,7 @@ def fix_step(source: str, calls: dict, refs: dict) -> dict:
                 + ("" if f == fname else " (a function the fix was not about)"),
             )
             info["behaviour_pair"] = (expect[i], after[f][i])
+            info["failing_args"] = list(calls[f][i])
             info["other_function"] = f != fname
             return info
     if before[IMPORT] != after[IMPORT]:
@@ -1112,6 +1119,148 @@ def sites_use_fstrings():
     return out
 
 
+# ---- operands of % formatting / f-string fields enumerated by INFERRED-TYPE CLASS ------------------------------------
+# What the checker proposes depends on the inferred type of each operand (a single type, a union, a literal, a narrowed
+# or branch-dependent local, an attribute, a user class with formatting hooks ...), and whether P' behaves like P shows only
+# when the function is CALLED with an inhabitant of EVERY member of that type.
+TY_TOP = ["import decimal, fractions", "from typing import Annotated, Any, Literal, Optional, Union"]
+_IDX = ["class Idx$N:", "    def __index__(self):", "        return 5"]
+_FMT = ["class Fmt$N:", "    def __format__(self, spec):", "        return 'F' + spec", "    def __str__(self):", "        return 'S'",
+        "    def __repr__(self):", "        return 'R'"]
+_HOLDER = ["class H$N:", "    n: int", "    u: Union[int, float]", "    o: Optional[int]", "    s: Union[int, str]",
+           "    def __init__(self, v):", "        self.n = self.u = self.o = self.s = v"]
+
+
+def _T(name, ann, inhabitants, top=(), operand="a", pre=()):
+    return {"name": name, "ann": ann, "inhabitants": list(inhabitants), "top": list(top), "operand": operand, "pre": list(pre)}
+
+
+TYPED_OPERANDS = [
+    # one plain type
+    _T("int", "int", ["3", "-1", "0"]),
+    _T("bool", "bool", ["True", "False"]),
+    _T("float", "float", ["2.5", "2.0", "-0.5"]),
+    _T("complex", "complex", ["1j"]),
+    _T("str", "str", ["'v'", "''"]),
+    _T("bytes", "bytes", ["b'x'"]),
+    _T("none", "None", ["None"]),
+    _T("object", "object", ["3", "2.5", "'v'"]),
+    _T("any", "Any", ["3", "2.5", "'v'", "None"]),
+    _T("unannotated", None, ["3", "2.5", "'v'"]),
+    _T("decimal", "decimal.Decimal", ["decimal.Decimal('2.5')", "decimal.Decimal(3)"]),
+    _T("fraction", "fractions.Fraction", ["fractions.Fraction(5, 2)"]),
+    _T("tuple1", "Tuple[int]", ["(7,)"]),
+    _T("tuple-bare", "tuple", ["(7,)", "()"]),
+    _T("list", "list", ["[1]", "[]"]),
+    _T("dict", "dict", ["{'k': 1}"]),
+    # Optional / unions: one call per member
+    _T("optional-int", "Optional[int]", ["3", "None"]),
+    _T("optional-str", "Optional[str]", ["'v'", "None"]),
+    _T("optional-float", "Optional[float]", ["2.5", "None"]),
+    _T("union-int-float", "Union[int, float]", ["3", "2.5", "99.9"]),
+    _T("union-float-int", "Union[float, int]", ["2.5", "3"]),
+    _T("pep604-int-float", "int | float", ["3", "2.5"]),
+    _T("union-int-str", "Union[int, str]", ["3", "'v'"]),
+    _T("union-str-int", "Union[str, int]", ["'v'", "3"]),
+    _T("union-int-bool", "Union[int, bool]", ["3", "True"]),
+    _T("union-bool-float", "Union[bool, float]", ["True", "2.5"]),
+    _T("union-int-none-float", "Union[int, None, float]", ["3", "None", "2.5"]),
+    _T("union-int-any", "Union[int, Any]", ["3", "2.5"]),
+    _T("union-int-object", "Union[int, object]", ["3", "2.5"]),
+    _T("union-int-decimal", "Union[int, decimal.Decimal]", ["3", "decimal.Decimal('2.5')"]),
+    _T("union-int-fraction", "Union[int, fractions.Fraction]", ["3", "fractions.Fraction(5, 2)"]),
+    _T("union-int-complex", "Union[int, complex]", ["3", "1j"]),
+    _T("union-str-bytes", "Union[str, bytes]", ["'v'", "b'x'"]),
+    _T("union-int-tuple1", "Union[int, Tuple[int]]", ["3", "(7,)"]),
+    _T("union-str-tuple2", "Union[str, Tuple[int, int]]", ["'v'", "(1, 2)"]),
+    _T("union-int-index-object", "Union[int, Idx$N]", ["3", "Idx$N()"], top=_IDX),
+    _T("union-str-format-object", "Union[str, Fmt$N]", ["'v'", "Fmt$N()"], top=_FMT),
+    # literals, Annotated
+    _T("literal-ints", "Literal[1, 2]", ["1", "2"]),
+    _T("literal-int-str", "Literal[1, 'x']", ["1", "'x'"]),
+    _T("literal-int-true", "Literal[1, True]", ["1", "True"]),
+    _T("annotated-int", "Annotated[int, 'meta']", ["3"]),
+    _T("annotated-union-int-float", "Annotated[Union[int, float], 'meta']", ["3", "2.5"]),
+    # enums
+    _T("intenum", "Col$N", ["Col$N.RED"], top=["class Col$N(enum.IntEnum):", "    RED = 1"]),
+    _T("union-intenum-float", "Union[Col$N, float]", ["Col$N.RED", "2.5"], top=["class Col$N(enum.IntEnum):", "    RED = 1"]),
+    _T("enum", "E$N", ["E$N.A"], top=["class E$N(enum.Enum):", "    A = 'a'"]),
+    _T("str-enum", "SE$N", ["SE$N.A"], top=["class SE$N(str, enum.Enum):", "    A = 'a'"]),
+    _T("intflag", "Fl$N", ["Fl$N.R", "Fl$N.R | Fl$N.W"], top=["class Fl$N(enum.IntFlag):", "    R = 1", "    W = 2"]),
+    # user classes with conversion / formatting hooks
+    _T("index-object", "Idx$N", ["Idx$N()"], top=_IDX),
+    _T("float-object", "Flt$N", ["Flt$N()"], top=["class Flt$N:", "    def __float__(self):", "        return 2.5"]),
+    _T("int-object", "Int$N", ["Int$N()"], top=["class Int$N:", "    def __int__(self):", "        return 7"]),
+    _T("format-object", "Fmt$N", ["Fmt$N()"], top=_FMT),
+    _T("str-only-object", "So$N", ["So$N()"], top=["class So$N:", "    def __str__(self):", "        return 'S'"]),
+    _T("repr-only-object", "Ro$N", ["Ro$N()"], top=["class Ro$N:", "    def __repr__(self):", "        return 'R'"]),
+    _T("int-subclass-str-override", "MyInt$N", ["MyInt$N(3)"], top=["class MyInt$N(int):", "    def __str__(self):", "        return 'my'"]),
+    _T("int-subclass-format-override", "FInt$N", ["FInt$N(3)"],
+       top=["class FInt$N(int):", "    def __format__(self, spec):", "        return 'F' + spec"]),
+    _T("str-subclass-str-override", "MyStr$N", ["MyStr$N('v')"], top=["class MyStr$N(str):", "    def __str__(self):", "        return 'my'"]),
+    _T("float-subclass", "MyFloat$N", ["MyFloat$N(2.5)"], top=["class MyFloat$N(float):", "    pass"]),
+    # inferred, not declared: branch-dependent / narrowed locals, call results
+    _T("local-ifexp-int-float", None, ["True", "False"], operand="v$N", pre=["v$N = 3 if a else 2.5"]),
+    _T("local-branches-int-float", None, ["True", "False"], operand="v$N", pre=["if a:", "    v$N = 3", "else:", "    v$N = 2.5"]),
+    _T("local-ifexp-int-str", None, ["True", "False"], operand="v$N", pre=["v$N = 3 if a else 'v'"]),
+    _T("local-ifexp-int-bool", None, ["True", "False"], operand="v$N", pre=["v$N = 3 if a else True"]),
+    _T("local-literal-int", None, ["1"], operand="v$N", pre=["v$N = 3"]),
+    _T("local-literal-float", None, ["1"], operand="v$N", pre=["v$N = 2.5"]),
+    _T("local-call-result-int", None, ["1"], operand="v$N", pre=["v$N = len(BYSTANDER)"]),
+    _T("local-or-default-float", "Optional[int]", ["3", "None", "0"], operand="v$N", pre=["v$N = a or 2.5"]),
+    _T("local-arithmetic-int-float", "int", ["3", "4"], operand="v$N", pre=["v$N = a / 2 if a % 2 else a"]),
+    _T("narrowed-to-int", "Union[int, float]", ["3", "2.5"], pre=["if not isinstance(a, int):", "    return 'other'"]),
+    _T("narrowed-to-float", "Union[int, float]", ["3", "2.5"], pre=["if isinstance(a, int):", "    return 'other'"]),
+    _T("narrowed-not-none", "Optional[int]", ["3", "None"], pre=["if a is None:", "    return 'other'"]),
+    # attributes
+    _T("attribute-int", "H$N", ["H$N(3)"], top=_HOLDER, operand="a.n"),
+    _T("attribute-union-int-float", "H$N", ["H$N(3)", "H$N(2.5)"], top=_HOLDER, operand="a.u"),
+    _T("attribute-optional-int", "H$N", ["H$N(3)", "H$N(None)"], top=_HOLDER, operand="a.o"),
+    _T("attribute-union-int-str", "H$N", ["H$N(3)", "H$N('v')"], top=_HOLDER, operand="a.s"),
+]
+# every conversion type, bare and with flags / width / precision / length modifier / a literal percent sign next to it
+TY_CONVS_BARE = ["%d", "%i", "%u", "%s", "%r", "%a", "%x", "%X", "%o", "%e", "%f", "%g", "%c"]
+TY_CONVS_DECORATED = ["%5d", "%-5d", "%05d", "%+d", "% d", "%.3d", "%ld", "%5i", "%5s", "%-5s", "%.2s", "%5r", "%.2f", "%8.3f",
+                      "%+.1e", "%.3g", "%#x", "%#o", "%04x", "%5c", "%d%%", "%s%%", "%%%d"]
+TY_PLACEMENTS = [
+    # (name, template with @C@ = the conversion, operands with @X@ = the typed operand, needs the second parameter b: str)
+    ("alone", '"[@C@]"', "@X@", False),
+    ("one-tuple", '"[@C@]"', "(@X@,)", False),
+    ("tuple-first", '"@C@/%s"', "(@X@, b)", True),
+    ("tuple-second", '"%s/@C@"', "(b, @X@)", True),
+    ("tuple-both", '"@C@/@C@"', "(@X@, @X@)", False),
+]
+TY_QUICK_TUPLE_CONVS = ("%d", "%i", "%s", "%x", "%5d", "%.2f", "%d%%")
+TYF_FIELDS = ["{@X@}", "{@X@:d}", "{@X@!r}", "{@X@:>6}", "{@X@:.2f}", "{@X@:x}", "{@X@!s:5}", "{@X@=}"]
+TYF_QUICK_FIELDS = ("{@X@}", "{@X@:d}")
+
+
+def _typed_site(producer, shape, t, expr, second, ref_expr=None):
+    params = [("a" if t["ann"] is None else "a: " + t["ann"])] + (["b: str"] if second else [])
+    calls = tuple((x,) + (("'w'",) if second else ()) for x in t["inhabitants"])
+    return Site(producer, shape, ["return " + expr], pre=t["pre"], post=[], top=TY_TOP + t["top"], params=params, calls=calls,
+                ref_site=None if ref_expr is None else ["return " + ref_expr])
+
+
+def sites_typed_operands(tier: str):
+    """use_fstrings: conversion x inferred-type class x placement; missing_f: field form x inferred-type class."""
+    out = []
+    for conv in TY_CONVS_BARE + TY_CONVS_DECORATED:
+        for pname, tmpl, ops, second in TY_PLACEMENTS:
+            if tier != "thorough" and pname != "alone" and conv not in TY_QUICK_TUPLE_CONVS:
+                continue
+            for t in TYPED_OPERANDS:
+                expr = tmpl.replace("@C@", conv) + " % " + ops.replace("@X@", t["operand"])
+                out.append(_typed_site("use_fstrings", f"ty:{conv}|{t['name']}/{pname}", t, expr, second))
+    for field in TYF_FIELDS:
+        if tier != "thorough" and field not in TYF_QUICK_FIELDS:
+            continue
+        for t in TYPED_OPERANDS:
+            lit = '"<' + field.replace("@X@", t["operand"]) + '>"'
+            out.append(_typed_site("missing_f", f"tyf:{field.replace('@X@', 'X')}|{t['name']}", t, lit, False, ref_expr="f" + lit))
+    return out
+
+
 P10 = "p1, p2, p3, p4, p5, p6, p7, p8, p9, p10"  # (A10_TEXT above is the matching argument list)
 RET10 = "    return (p1, p2, p3, p4, p5, p6, p7, p8, p9, p10)"
 A10 = "1, 2, 3, 4, 5, 6, 7, 8, 9, 10"
@@ -1268,7 +1417,7 @@ def _template_convs(S) -> str:
         if isinstance(n, ast.BinOp) and isinstance(n.op, ast.Mod):
             for c in ast.walk(n.left):
                 if isinstance(c, ast.Constant) and isinstance(c.value, str):
-                    convs.update(re.findall(r"%([a-zA-Z])", c.value.replace("%%", "")))
+                    convs.update(re.findall(r"%(?:\([^)]*\))?[-+ #0]*\d*(?:\.\d+)?[hlL]?([a-zA-Z])", c.value.replace("%%", "")))
     return "".join(sorted(convs))
 
 
@@ -1308,6 +1457,11 @@ def fix_mech_key(info: dict, source: str) -> str:
     if producer == "use_fstrings" and clause == "behaviour-changed" and not info.get("other_function"):
         convs = _template_convs(S)
         before, after = info.get("behaviour_pair", ((None,), (None,)))
+        if _call_passes_format_overrider(tree, info.get("failing_args")):
+            # the differing call passes an instance of a class of P that defines __format__: `%` never calls it
+            return "use_fstrings|*|behaviour-changed:operand-class-overrides-__format__-which-only-the-f-string-calls"
+        if set(convs) & set("diu") and before[0][0] == "ret" and after[0][0] == "exc":
+            return "use_fstrings|*|behaviour-changed:integer-conversion-becomes-{:d}-which-raises-for-an-operand-%d-accepts"
         if "d" in convs and after[0][0] == "ret":
             return "use_fstrings|*|behaviour-changed:%d-becomes-plain-{}-for-a-non-int-operand"
         if convs in ("s", "ds") and after[0][0] == "ret":
@@ -1315,6 +1469,16 @@ def fix_mech_key(info: dict, source: str) -> str:
     if producer == "too_many_positional_args" and clause == "behaviour-changed" and _callee_has_posonly(tree, S):
         return "too_many_positional_args|*|behaviour-changed:positional-only-parameter-passed-by-keyword"
     return generic
+
+
+def _call_passes_format_overrider(tree, args) -> bool:
+    """Structural: an argument expression of the differing call names a class defined in P whose body defines __format__."""
+    if not args:
+        return False
+    overriders = {n.name for n in ast.walk(tree) if isinstance(n, ast.ClassDef)
+                  and any(isinstance(b, ast.FunctionDef) and b.name == "__format__" for b in n.body)}
+    words = set(re.findall(r"[A-Za-z_]\w*", " ".join(args)))
+    return bool(overriders & words)
 
 
 def _text_after_marker(source: str, lineno: int) -> bool:
@@ -1469,13 +1633,13 @@ def report_fix(ctx, key, what, src, prog, seen_keys):
     ctx.violation(key, what, witness)
 
 
-def run_fix_program(ctx, prog, seen_keys, label: str) -> Optional[str]:
+def run_fix_program(ctx, prog, seen_keys, label: str, max_steps: int = MAX_STEPS) -> Optional[str]:
     """-> text after the first applied step (for the CLI differential), or None."""
     src = prog["source"]
     calls, refs = prog["calls"], prog["refs"]
     first_new = None
     ctx.count("fix_programs")
-    for step in range(MAX_STEPS):
+    for step in range(max_steps):
         try:
             info = fix_step(src, calls, refs)
         except Undecided as e:
@@ -1545,6 +1709,59 @@ def enumerate_fix_programs(ctx):
                 for c in CONTEXTS[1:] + (WHOLE_BODY_CONTEXTS if s.producer == "unused" else []):
                     out.append((f"{pname}#{si}@{c}", [(s, c)]))
     return out
+
+
+TY_BATCH = 12   # independent units checked together by the classifying run
+TY_GROUP = 4    # units with a proposal iterated together (one applied fix per step)
+
+
+def classify_batch(prog) -> dict:
+    """One apply run over a program of many independent one-function units. A diagnostic WITHOUT a replacement that comes
+    first in the file keeps every later fix from being applied, so units cannot simply be iterated together: the list of all
+    Replacements of the run (recorded by the hook) says which function carries a proposal and which only other diagnostics.
+    -> {fname: (has a proposal, has a diagnostic without one)}"""
+    r, change = run_apply(prog["source"])
+    tree = ast.parse(prog["source"])
+    spans = {n.name: (n.lineno, n.end_lineno) for n in tree.body if isinstance(n, (ast.FunctionDef, ast.AsyncFunctionDef))}
+    out = {f: [False, False] for f in prog["calls"] if f in spans}
+    for lines, has_add in (change["all"] if change else []):
+        for f, (lo, hi) in spans.items():
+            if f in out and lines and lo <= lines[0] <= hi:
+                out[f][0 if has_add else 1] = True
+    return out
+
+
+def run_typed_batches(ctx, seen_keys) -> None:
+    sites = sites_typed_operands(ctx.tier)
+    ctx.count("typed_units_enumerated_total", len(sites) if ctx.shard == 0 else 0)
+    for ci in range(0, len(sites), TY_BATCH):
+        if not ctx.mine(ci // TY_BATCH):
+            continue
+        chunk = sites[ci: ci + TY_BATCH]
+        prog = build_program([(s, "plain") for s in chunk])
+        try:
+            cls = classify_batch(prog)
+        except (Undecided, SyntaxError) as e:
+            ctx.count("undecided")
+            ctx.note(f"typed batch {chunk[0].shape} ..: {e!r}")
+            continue
+        ctx.count("typed_batches")
+        clean, mixed = [], []
+        for (fname, producer, shape, _c), s in zip(prog["meta"], chunk):
+            has_fix, has_other = cls.get(fname, (False, False))
+            ctx.count("typed_units_classified")
+            form, tname = shape.split("/")[0].split(":", 1)[1].rsplit("|", 1)
+            outcome = "proposal" if has_fix else "diagnostic-without-proposal" if has_other else "silent"
+            ctx.histo("typed_unit_outcome", f"{producer}:{outcome}")
+            if has_fix:
+                ctx.histo("typed_proposal_by_form", f"{producer}:{form}")
+                ctx.histo("typed_proposal_by_type", f"{producer}:{tname}")
+                ctx.count("typed_calls_of_units_with_proposal", len(s.calls))
+                (mixed if has_other else clean).append(s)
+        groups = [clean[i: i + TY_GROUP] for i in range(0, len(clean), TY_GROUP)] + [[s] for s in mixed]
+        for group in groups:
+            gprog = build_program([(s, "plain") for s in group])
+            run_fix_program(ctx, gprog, seen_keys, f"typed:{group[0].shape}+{len(group) - 1}", max_steps=len(group) + 2)
 
 
 def random_fix_program(rng):
@@ -1965,6 +2182,7 @@ def shard(ctx) -> None:
             if text != first_new:
                 ctx.violation("cli|-A|differs-from-in-process", f"`pyanalyze -A` (rc={rc}) left a different file than check_for_test(apply_changes=True); stderr: {err[-200:]}",
                               {"kind": "cli-fix", "source": prog["source"], "key": "cli|-A|differs-from-in-process"})
+    run_typed_batches(ctx, seen_keys)
     nrand = ctx.pick(160, 3200)
     prog_rng = random.Random(f"C16-random-fix/{ctx.seed}")
     for i in range(nrand):
@@ -2080,6 +2298,20 @@ RULE = (
     "try-else/finally/with/case blocks, nested once more, `;` neighbours, one-line if, comments, nested def, two nesting levels, "
     "tab indentation), sites of the removing producer also as the WHOLE body of a for / while / try / function / nested function, "
     "~100 decompiler riders, plus random 2-3 unit combinations over all of these; "
+    "operands enumerated by INFERRED-TYPE CLASS (plain context, checked in batches of 12 independent functions, the units with a "
+    "proposal then iterated 4 at a time): use_fstrings = 36 conversions (%d %i %u %s %r %a %x %X %o %e %f %g %c bare; with width, "
+    "flags - 0 + space #, precision, length modifier, a literal %% beside it) x 73 operand type classes (int, bool, float, complex, "
+    "str, bytes, None, object, Any, unannotated, Decimal, Fraction, tuple / list / dict; Optional[int|str|float]; Union of int with "
+    "float (both orders, PEP 604), str, bool, None+float, Any, object, Decimal, Fraction, complex, a 1-tuple, an __index__ object; "
+    "Union[bool, float], [str, bytes], [str, 2-tuple], [str, __format__ object]; Literal ints / int+str / int+True; Annotated int / "
+    "union; IntEnum, Union[IntEnum, float], Enum, str-Enum, IntFlag; user classes with __index__ / __float__ / __int__ / "
+    "__format__+__str__+__repr__ / only __str__ / only __repr__; int subclass overriding __str__ / __format__, str subclass "
+    "overriding __str__, float subclass; locals whose type is inferred: conditional expression and if/else branches giving "
+    "int|float, int|str, int|bool, literal int / float, call result, `a or 2.5`, arithmetic int|float; isinstance / is-None "
+    "narrowing; declared attributes int / Union[int, float] / Optional[int] / Union[int, str] of a parameter) x 5 placements "
+    "(alone, 1-tuple, first / second of a 2-tuple beside a str, both of a 2-tuple; quick: the tuple placements for %d %i %s %x "
+    "%5d %.2f %d%% only); missing_f = 8 field forms ({x}, {x:d}, {x!r}, {x:>6}, {x:.2f}, {x:x}, {x!s:5}, {x=}; quick: the first "
+    "two) x the same 73 classes; every function is CALLED with at least one inhabitant of EVERY member of its operand's type; "
     "every program is iterated until nothing is applied. add-ignores case = one whole history of a vp.illtyped program "
     "(LF / tab / CRLF) or of a single-snippet / line-1 / last-line program. Non-trivial = a replacement was proposed and "
     "applied (fix) or the program has diagnostics (add-ignores); distinct by (producer, node-type skeleton of the "
@@ -2101,7 +2333,12 @@ ASSUMPTIONS = [
     "line are necessarily covered by one line-level comment: counted, not judged)",
     "add-ignores runs use the test-suite configuration minus unused_ignore/bare_ignore; non-convergence is declared after "
     "2*|D(P)|+8 iterations without a new minimum of remaining diagnostics, and re-run literally to ITERATION_LIMIT=150 for a sample per shard",
-    "unannotated parameters are called with ints and strs only; annotated ones with inhabitants of the annotation",
+    "unannotated parameters are called with ints and strs only (in the type-class units also with a float; never with a tuple: "
+    "an operand of unknown type is assumed not to be one); annotated ones with inhabitants of the annotation, one at least per "
+    "union member / branch",
+    "type-class units are independent one-function units: which of the 12 functions of a batch carries a proposal is read from the "
+    "list of ALL Replacements of one run (same record-only hook); only those are iterated (a diagnostic without a replacement "
+    "earlier in a file keeps the tool from applying any later fix, which is observed and counted, not judged)",
 ]
 LEVEL_TEXT = (
     "held-on-explored: every enumerated fix site x context and every add-ignores history listed in the rule was executed through "
@@ -2113,10 +2350,14 @@ WATCHDOG_S = {"quick": 3600, "thorough": 14400}
 FLOORS = {
     "quick": {"distinct_nontrivial": 570, "fix_steps_run": 5000, "fix_applied": 2200, "fix_applied:unused": 480,
               "fix_applied@fx": 210, "fix_applied@blk": 125, "fix_applied@hdr": 48,
+              "typed_units_classified": 2400, "typed_batches": 200, "fix_applied@ty": 210, "fix_applied@tyf": 70,
+              "typed_calls_of_units_with_proposal": 500,
               "fix_applied:missing_f": 290, "fix_applied:use_fstrings": 600, "fix_applied:too_many_positional_args": 220,
               "fix_applied:unused_ignore": 130, "fix_applied:missing_await": 20, "ignore_programs": 280,
               "ignore_outcome:fixpoint": 160, "ignore_comment_removal_checks": 300, "no_fixpoint_rechecked_to_the_limit": 2,
               "cli_runs": 4},
     "thorough": {"distinct_nontrivial": 1779, "fix_steps_run": 14433, "fix_applied": 6753, "fix_applied:unused": 570, "fix_applied:missing_f": 1378, "fix_applied:use_fstrings": 3770, "fix_applied:too_many_positional_args": 789, "fix_applied:unused_ignore": 191, "fix_applied:missing_await": 53, "ignore_programs": 1665, "ignore_outcome:fixpoint": 549, "ignore_comment_removal_checks": 2310, "no_fixpoint_rechecked_to_the_limit": 8, "cli_runs": 12,
-                 "fix_applied@fx": 210, "fix_applied@blk": 125, "fix_applied@hdr": 48},
+                 "fix_applied@fx": 210, "fix_applied@blk": 125, "fix_applied@hdr": 48,
+                 "typed_units_classified": 6800, "typed_batches": 570, "fix_applied@ty": 210, "fix_applied@tyf": 280,
+                 "typed_calls_of_units_with_proposal": 900},
 }
